@@ -20,7 +20,7 @@ use rustc_hir::def_id::{DefId, LocalDefId, LOCAL_CRATE};
 use rustc_interface::interface::{Compiler, Config};
 use rustc_middle::mir::*;
 use rustc_middle::ty::print::with_no_trimmed_paths;
-use rustc_middle::ty::{self, Ty, TyCtxt};
+use rustc_middle::ty::{self, Ty, TyCtxt, TypeVisitableExt};
 use rustc_middle::util::Providers;
 use rustc_span::hygiene::{ExpnKind, MacroKind};
 use rustc_span::Span;
@@ -83,16 +83,19 @@ fn path_s(tcx: TyCtxt<'_>, d: DefId) -> String {
 struct Loc {
     line: usize,
     mac: Option<String>,
+    macs: Option<String>,
     desugar: Option<String>,
 }
 fn loc(tcx: TyCtxt<'_>, span: Span) -> Loc {
     let mut mac = None;
+    let mut macs = None;
     let mut desugar = None;
     if span.from_expansion() {
         if let Some(k) = span.desugaring_kind() {
             desugar = Some(format!("{:?}", k));
         }
-        // outermost macro of the backtrace
+        // outermost macro of the backtrace; the whole chain (innermost first) when nested
+        let mut chain: Vec<String> = Vec::new();
         for ed in span.macro_backtrace() {
             if let ExpnKind::Macro(kind, name) = ed.kind {
                 let s = match kind {
@@ -100,19 +103,26 @@ fn loc(tcx: TyCtxt<'_>, span: Span) -> Loc {
                     MacroKind::Attr => format!("#[{}]", name),
                     MacroKind::Derive => format!("derive({})", name),
                 };
+                chain.push(s.clone());
                 mac = Some(s);
             }
+        }
+        if chain.len() > 1 {
+            macs = Some(chain.join(">"));
         }
     }
     let root = span.source_callsite();
     let line = tcx.sess.source_map().lookup_char_pos(root.lo()).line;
-    Loc { line, mac, desugar }
+    Loc { line, mac, macs, desugar }
 }
 fn loc_json(tcx: TyCtxt<'_>, span: Span, out: &mut String) {
     let l = loc(tcx, span);
     let _ = write!(out, "\"line\":{}", l.line);
     if let Some(m) = l.mac {
         let _ = write!(out, ",\"mac\":{}", js(&m));
+    }
+    if let Some(m) = l.macs {
+        let _ = write!(out, ",\"macs\":{}", js(&m));
     }
     if let Some(d) = l.desugar {
         let _ = write!(out, ",\"ds\":{}", js(&d));
@@ -246,6 +256,17 @@ impl<'a, 'tcx> Cx<'a, 'tcx> {
             out.push(']');
         }
         let _ = targs;
+        let dp = tcx.def_path_str(did);
+        if dp.ends_with("mem::size_of") || dp.ends_with("mem::align_of") {
+            if let Some(t) = args.iter().find_map(|a| a.as_type()) {
+                if !t.has_param() {
+                    if let Ok(l) = tcx.layout_of(self.env.as_query_input(t)) {
+                        let v = if dp.ends_with("size_of") { l.size.bytes() } else { l.align.abi.bytes() };
+                        let _ = write!(out, ",\"layout\":{}", v);
+                    }
+                }
+            }
+        }
     }
 
     fn constant(&self, c: &ConstOperand<'tcx>, out: &mut String) {
@@ -289,7 +310,11 @@ impl<'a, 'tcx> Cx<'a, 'tcx> {
                     }
                 }
                 Const::Ty(_, ct) => {
-                    let _ = write!(out, ",\"tyconst\":{}", js(&trunc(format!("{:?}", ct))));
+                    if let Some(si) = ct.try_to_leaf() {
+                        self.scalar(si, ty, out);
+                    } else {
+                        let _ = write!(out, ",\"tyconst\":{}", js(&trunc(format!("{:?}", ct))));
+                    }
                 }
             },
         }
